@@ -983,9 +983,9 @@ func (c *FnCtx) execInstr(st *State, b *ssa.BasicBlock, in ssa.Instruction) bool
 	case *ssa.Defer:
 		c.abstracted["defer "+callName(&in.Call)]++
 		// a deferred call runs once when the function returns: call counters count it where it is deferred
-		if len(c.fc.Counters) > 0 && in.Pos().IsValid() {
+		if len(c.fc.Counters) > 0 && in.Call.Pos().IsValid() {
 			// (only by counters that ask for it: the call prefix is written with its "defer")
-			txt := "defer" + strings.TrimPrefix(c.anchor(in), "defer")
+			txt := "defer" + c.eng.srcText(in.Call.Pos(), in)
 			for _, ct := range c.fc.Counters {
 				if want := strings.Join(strings.Fields(ct[1]), ""); strings.HasPrefix(want, "defer") && strings.HasPrefix(txt, want) {
 					st.ghostInts[ct[0]] = c.define("cnt."+ct[0], sInt, plus(st.ghostInts[ct[0]], "1"))
